@@ -20,12 +20,12 @@ import (
 type wkbCtx struct {
 	framing string // scanner input framing: "" raw, "hex", "xhex", "prefix"
 	prefix  IntV   // the SRID in a 4-byte prefix
-	dest   string // scanner destination kind ("" = none)
-	orig   IfaceV
-	want   string // expected content of the decoded geometry ("" = nothing is encoded)
-	srid   IntV
-	ewkb   bool
-	little bool
+	dest    string // scanner destination kind ("" = none)
+	orig    IfaceV
+	want    string // expected content of the decoded geometry ("" = nothing is encoded)
+	srid    IntV
+	ewkb    bool
+	little  bool
 }
 
 // wkbNormal: the content a decoder must return for v: rings and bounds come
@@ -224,7 +224,7 @@ func wkbRoundTripSpecs(thorough bool) []composeSpec {
 		// 1. one-shot byte decoder
 		specs = append(specs, composeSpec{
 			entry: pfx + "Marshal", tag: "then Unmarshal", precise: true, anyPath: true, cases: cases,
-			desc:  "Unmarshal(Marshal(g)) has the kind, nesting, lengths and the very coordinates of g (ring and bound as their one-ring polygon), with the SRID that was written; nil encodes to no bytes",
+			desc: "Unmarshal(Marshal(g)) has the kind, nesting, lengths and the very coordinates of g (ring and bound as their one-ring polygon), with the SRID that was written; nil encodes to no bytes",
 			steps: []composeStep{func(it *Interp, st *State, cx interface{}) (string, []AV, bool) {
 				ctx := cx.(*wkbCtx)
 				if ctx.want == "" {
@@ -261,7 +261,7 @@ func wkbRoundTripSpecs(thorough bool) []composeSpec {
 		// 2. streaming decoder
 		specs = append(specs, composeSpec{
 			entry: pfx + "Marshal", tag: "then stream Decode", precise: true, anyPath: true, cases: cases,
-			desc:  "NewDecoder(reader over Marshal(g)).Decode() returns the same value as the byte-slice decoder: the kind, nesting, lengths and coordinates of g and the SRID that was written",
+			desc: "NewDecoder(reader over Marshal(g)).Decode() returns the same value as the byte-slice decoder: the kind, nesting, lengths and coordinates of g and the SRID that was written",
 			steps: []composeStep{
 				func(it *Interp, st *State, cx interface{}) (string, []AV, bool) {
 					ctx := cx.(*wkbCtx)
@@ -303,6 +303,53 @@ func wkbRoundTripSpecs(thorough bool) []composeSpec {
 					return "Decode did not return (geometry, error)"
 				}
 				return judgeDecoded(ctx, st, st.result[0], nil, st.result[1], "the stream decoder")
+			},
+		})
+		// 2b. streaming decoder over a reader that returns one byte per Read (io.ReadFull still fills)
+		specs = append(specs, composeSpec{
+			entry: pfx + "Marshal", tag: "then stream Decode, one byte per Read", precise: true, anyPath: true, cases: cases,
+			desc: "NewDecoder(reader over Marshal(g)).Decode() returns the same value as the byte-slice decoder: the kind, nesting, lengths and coordinates of g and the SRID that was written",
+			steps: []composeStep{
+				func(it *Interp, st *State, cx interface{}) (string, []AV, bool) {
+					ctx := cx.(*wkbCtx)
+					if ctx.want == "" {
+						return "", nil, false
+					}
+					b, why := marshalled(st)
+					if why != "" {
+						return "", nil, false
+					}
+					st.notes = map[string]AV{"bytes": b}
+					rd := it.preciseObj(st, "reader1", b, intOf(0))
+					rt := types.NewPointer(it.p.Prog.ImportedPackage("bytes").Type("Reader").Type())
+					return pfx + "NewDecoder", []AV{IfaceV{Typ: rt, Val: rd}}, true
+				},
+				func(it *Interp, st *State, cx interface{}) (string, []AV, bool) {
+					if st.notes == nil || len(st.result) != 1 {
+						return "", nil, false
+					}
+					st.notes["decoder"] = st.result[0]
+					return pfx + "(*Decoder).Decode", []AV{st.result[0]}, true
+				},
+			},
+			judge: func(it *Interp, cx interface{}, st *State) string {
+				ctx := cx.(*wkbCtx)
+				if done, why := nothingEncoded(ctx, st); done {
+					return why
+				}
+				if st.notes == nil || st.notes["decoder"] == nil {
+					return "the stream decoder could not be constructed on the encoder's output"
+				}
+				if isE {
+					if len(st.result) != 3 {
+						return "Decode did not return (geometry, srid, error)"
+					}
+					return judgeDecoded(ctx, st, st.result[0], st.result[1], st.result[2], "the stream decoder (short reads)")
+				}
+				if len(st.result) != 2 {
+					return "Decode did not return (geometry, error)"
+				}
+				return judgeDecoded(ctx, st, st.result[0], nil, st.result[1], "the stream decoder (short reads)")
 			},
 		})
 	}
@@ -390,7 +437,7 @@ func wkbRoundTripSpecs(thorough bool) []composeSpec {
 		}
 		specs = append(specs, composeSpec{
 			entry: pfx + "Marshal", tag: "then Scanner.Scan", precise: true, anyPath: true, cases: cases,
-			desc:  "Scanner(dest).Scan(Marshal(g)) yields the value the byte decoder yields, under the documented coercions (one-member multi to single, single to one-member multi, one-ring polygon to ring, anything to a bound), in the scanner's Geometry and in *dest, Valid = true, the SRID that was written; a wrong-geometry error for every other kind mismatch",
+			desc: "Scanner(dest).Scan(Marshal(g)) yields the value the byte decoder yields, under the documented coercions (one-member multi to single, single to one-member multi, one-ring polygon to ring, anything to a bound), in the scanner's Geometry and in *dest, Valid = true, the SRID that was written; a wrong-geometry error for every other kind mismatch",
 			steps: []composeStep{
 				func(it *Interp, st *State, cx interface{}) (string, []AV, bool) {
 					ctx := cx.(*wkbCtx)
@@ -499,6 +546,130 @@ func wkbRoundTripSpecs(thorough bool) []composeSpec {
 					if got != want {
 						return fmt.Sprintf("*dest is %s, want %s", got, want)
 					}
+				}
+				return ""
+			},
+		})
+	}
+	// 4. driver.Valuer paths: Value(g).Value() / ValuePrefixSRID(g, srid).Value(), read back by the matching scanner
+	type valuerDef struct {
+		ctor, method, scanner string
+		ewkb, prefix          bool
+	}
+	for _, vd := range []valuerDef{
+		{"encoding/wkb.Value", "encoding/wkb.(value).Value", "encoding/wkb.Scanner", false, false},
+		{"encoding/ewkb.Value", "encoding/ewkb.(value).Value", "encoding/ewkb.Scanner", true, false},
+		{"encoding/ewkb.ValuePrefixSRID", "encoding/ewkb.(valuePrefixSRID).Value", "encoding/ewkb.ScannerPrefixSRID", true, true},
+	} {
+		vd := vd
+		scanFn := strings.TrimSuffix(vd.scanner, "Scanner")
+		scanFn = strings.TrimSuffix(scanFn, "ScannerPrefixSRID")
+		pkg := "encoding/wkb."
+		if vd.ewkb {
+			pkg = "encoding/ewkb."
+		}
+		var cases []composeCase
+		for _, h := range []*GeomHyp{nil, {Kind: "Point"}, nilOf("LineString"), pts("LineString", 0), pts("LineString", 2), of("Polygon", pts("Ring", 4)), {Kind: "Bound"}, of("Collection", &GeomHyp{Kind: "Point"}), nilOf("Collection")} {
+			h := h
+			lab := "nil"
+			if h != nil {
+				lab = h.String()
+			}
+			cases = append(cases, composeCase{lab, func(it *Interp, s *State) ([]AV, interface{}) {
+				g := it.buildIface(s, h)
+				ctx := &wkbCtx{ewkb: vd.ewkb, srid: intOf(0)}
+				ctx.want = wkbNormal(s, g)
+				if iv, _ := g.(IfaceV); iv.Nil {
+					ctx.want = ""
+				} else if sl, isSl := iv.Val.(SliceV); isSl && sl.Nil {
+					ctx.want = ""
+				}
+				if !vd.ewkb {
+					return []AV{g}, ctx
+				}
+				sr := it.freshSym(s, 1, 1<<31-1, false)
+				sr.Bits = bitsLits(sr.Sym, 31)
+				ctx.srid = sr
+				return []AV{g, sr}, ctx
+			}})
+		}
+		specs = append(specs, composeSpec{
+			entry: vd.ctor, tag: "Value() then Scan", precise: true, anyPath: true, cases: cases,
+			desc: "the valuer yields no value (nil) for a nil geometry and otherwise bytes that the matching scanner reads back as the same geometry and SRID",
+			steps: []composeStep{
+				func(it *Interp, st *State, cx interface{}) (string, []AV, bool) {
+					iv, ok := st.result[0].(IfaceV)
+					if !ok || iv.Nil {
+						return "", nil, false
+					}
+					st.notes = map[string]AV{"valuer": iv}
+					return vd.method, []AV{iv.Val}, true
+				},
+				func(it *Interp, st *State, cx interface{}) (string, []AV, bool) {
+					if st.notes == nil || len(st.result) != 2 {
+						return "", nil, false
+					}
+					st.notes["value"] = st.result[0]
+					st.notes["verr"] = st.result[1]
+					return vd.scanner, []AV{IfaceV{Nil: true}}, true
+				},
+				func(it *Interp, st *State, cx interface{}) (string, []AV, bool) {
+					if st.notes == nil || st.notes["value"] == nil || len(st.result) != 1 {
+						return "", nil, false
+					}
+					st.notes["scanner"] = st.result[0]
+					return pkg + "(*GeometryScanner).Scan", []AV{st.result[0], st.notes["value"]}, true
+				},
+			},
+			judge: func(it *Interp, cx interface{}, st *State) string {
+				ctx := cx.(*wkbCtx)
+				if st.notes == nil || st.notes["scanner"] == nil {
+					return "the valuer's output could not be handed to the scanner"
+				}
+				if isNil, known := nilness(st.notes["verr"]); !known || !isNil {
+					return "Value() returns an error"
+				}
+				val, _ := st.notes["value"].(IfaceV)
+				if ctx.want == "" {
+					if !val.Nil {
+						return "a nil geometry must give no value (nil), so that the database stores NULL"
+					}
+				} else if val.Nil {
+					return "Value() gives nil for a non-nil geometry"
+				}
+				sp, _ := st.notes["scanner"].(PtrV)
+				obj, ok := st.heap[sp.Cell].(StructV)
+				if !ok {
+					return "the scanner's state is not followed"
+				}
+				fn := it.p.funcByShortKey(pkg + "(*GeometryScanner).Scan")
+				stt := fn.Signature.Recv().Type().(*types.Pointer).Elem().Underlying().(*types.Struct)
+				field := func(name string) AV {
+					for i := 0; i < stt.NumFields(); i++ {
+						if stt.Field(i).Name() == name {
+							return obj.Fields[i]
+						}
+					}
+					return nil
+				}
+				if isNil, known := nilness(st.result[0]); !known || !isNil {
+					return "the scanner rejects what the valuer produced"
+				}
+				valid, _ := exactBool(field("Valid"))
+				if ctx.want == "" {
+					if valid {
+						return "a NULL value scans as valid"
+					}
+					return ""
+				}
+				if !valid {
+					return "the scanned value is not valid"
+				}
+				if got := wkbNormal(st, field("Geometry")); got != ctx.want {
+					return fmt.Sprintf("the scanner reads back %s, the valuer was given %s", got, ctx.want)
+				}
+				if vd.ewkb && !sameSRID(ctx.srid, field("SRID")) {
+					return "the scanner does not read back the SRID given to the valuer"
 				}
 				return ""
 			},
